@@ -69,6 +69,10 @@ func runC08(c *Ctx) {
 		[][]Call{{{Name: "count"}, {Name: "count"}}, {{Name: "ins", V: 2, K: 3}, {Name: "del", Slot: 0}}},
 		[][]Call{{{Name: "upd", Slot: 0, V: 3, K: 0}, {Name: "get", Slot: 0}}, {{Name: "upd", Slot: 0, V: 2, K: 0}, {Name: "get", Slot: 0}}},
 	)
+	// a union whose left operand is empty, against the writers that move index entries
+	for _, w := range []Call{{Name: "ins", V: 2, K: 3}, {Name: "many", V: 2, K: 3}, {Name: "upd", Slot: 0, V: 3, K: 0}, {Name: "del", Slot: 0}, {Name: "sdel", Field: "A", Cmp: ">=", Probe: 2}} {
+		programs = append(programs, [][]Call{{{Name: "emptyor", Field: "A", Cmp: ">=", Probe: 2}}, {w}})
+	}
 	if c.Tier == "thorough" {
 		bound = 3
 		if phase == "race" {
